@@ -156,6 +156,9 @@ def run_c13(ck, fb, fbd):
     for tag in ENTITY_TAGS:
         ok = sized.get(tag) is True
         (ck.ok if ok else lambda r_, w, t: ck.violate(r_, w, t, "C13.assign:resize:%s" % tag))("C13.assign", asg.where, "operator= resizes the %s properties to the source's count (%s)" % (tag, "from %s" % other["n"] if sized.get(tag) else "missing" if tag not in sized else "NOT from the source"))
+    # the copy operations of GeometryKernel ask the registry for the position property: its answer may be "refused"
+    from .rule_u import optional_rule
+    optional_rule(ck, fb)
     # clone() of every storage instantiation
     clone_rule(ck, fb)
     # GeometryKernel copy ops
@@ -389,6 +392,15 @@ def run_c14(ck, fb, fbd):
             if not creates:
                 bad += 1
         (ck.ok if bad == 0 else lambda r_, w_, t: ck.violate(r_, w_, t, "C14.create:%s" % name))("C14.create", fs2[0].where, "%s (%d instantiations) creates a shared storage only when the lookup failed" % (name, len(fs2)))
+        # shared implies named: the lookup never finds the empty name, so it cannot be what refuses it
+        unnamed = 0
+        for f in fs2:
+            cn = Canon(f)
+            for b, i, x in f.nodes(("call",)):
+                if x.get("pn", "").endswith("::internal_create_property") and b in f.reach():
+                    if ("P0.empty()", False) not in {(s_, p_) for s_, p_, c_ in cn.facts(b)}:
+                        unnamed += 1
+        (ck.ok if unnamed == 0 else lambda r_, w_, t: ck.violate(r_, w_, t, "C14.create:%s:unnamed" % name))("C14.create", fs2[0].where, "%s creates its shared storage only under the fact that the name is not empty (%d creating site(s) without it)" % (name, unnamed))
     fs2 = insts("request_property")
     bad = 0
     for f in fs2:
@@ -477,6 +489,8 @@ def run_c14(ck, fb, fbd):
     flag_writer_rule(ck, fb)
     tag_rule(ck, fb)
     # m = m must not run the anonymise step: it would un-persist and hide every property of the mesh (shared with C13)
+    from .rule_u import optional_rule
+    optional_rule(ck, fb)
     ck.rule("C13.assign", "every user-provided copy assignment of the mesh hierarchy begins with the self-assignment test: ResourceManager::operator= makes all existing properties private before cloning, which on self-assignment drops every persistent property although nothing was destroyed")
     selfguard_rule(ck, fb)
     # a cloned storage has to carry the persistent/shared flags of its source: the copy path inserts it into the target's
